@@ -9,7 +9,9 @@ import (
 
 const c05Defs = "set e to pattern (any = x) " + "set f to transform return match + 'x' end " +
 	"set g to transform return matchNumber * 2 end " +
-	"set h to transform if x == 'a' then return 'A' else return x + matchLength end end "
+	"set h to transform if x == 'a' then return 'A' else return x + matchLength end end " +
+	"set k to transform set out to match set matchNumber to matchNumber * 3 return out + matchNumber end " +
+	"set r to transform set out to seen + 'x' set seen to 'y' return out end "
 
 var c05Bodies = []string{
 	"any = x", "(any = x any) = y", "('a' = x) or 'b'", "at least 1 letter", "(at least 1 'a') = x 'b'", "('a' = x 'b') or ('a' 'c')",
@@ -17,7 +19,7 @@ var c05Bodies = []string{
 
 var c05Withs = []string{
 	"'<' x '>'", "x x", "matchNumber value", "startOffset '-' endOffset", "totalMatches", "lineNumber ':' columnNumber", "filename",
-	"nope 'k'", "f", "'a' g x", "h", "y x 'z' y", "'' x", "value value", "f g h",
+	"nope 'k'", "f", "'a' g x", "h", "y x 'z' y", "'' x", "value value", "f g h", "k '|' matchNumber", "r r '.' r",
 }
 
 func VerifC05Count() int { return len(c05Bodies) * len(c05Withs) }
@@ -39,6 +41,12 @@ func c05Transform(name string, m engine.Match) (string, bool) {
 			return "A", true
 		}
 		return x + vItoa(len(m.Value)), true
+	case "r":
+		// every call starts without the variables an earlier call assigned
+		return "x", true
+	case "k":
+		// a transform may assign the per-match names it is given; the next match gets its own again
+		return m.Value + vItoa(m.MatchNumber*3), true
 	}
 	return "", false
 }
@@ -151,7 +159,7 @@ var c05DefBodies = []string{
 	"e", "e e", "at least 1 e", "exactly 2 e", "between 1 and 2 e fewest", "maybe e any", "(at least 1 e) = y", "{any = x} = s", "{any = x} = s s",
 	"at least 1 (any = x)", "exactly 2 (any = x)", "e or 'b'",
 }
-var c05DefWiths = []string{"'<' x '>'", "x x", "h", "'a' g x", "nope x 'k'"}
+var c05DefWiths = []string{"'<' x '>'", "x x", "h", "'a' g x", "nope x 'k'", "k k", "r r"}
 
 func VerifC05DefsCount() int { return len(c05DefBodies) * len(c05DefWiths) }
 
